@@ -177,7 +177,7 @@ def leafgen(ctx):
     return (rc == 0 and not info.get('failed')), info
 
 
-def coq_prove(ctx, files, timeout=1500):
+def coq_prove(ctx, files, timeout=1500, leaves=None):
     """builds the .vo closure of the given property files with make -k, then re-runs
     coqc on each property file to get fresh Print Assumptions output.
     returns dict(ok, obligations, discharged, axioms, closed, errors, names)"""
@@ -186,8 +186,13 @@ def coq_prove(ctx, files, timeout=1500):
     ok_leaf, linfo = leafgen(ctx)
     res['leaves'] = linfo.get('leaves', {})
     if not ok_leaf:
-        res['ok'] = False
-        res['errors'].append('tie A (leafgen) could not translate: %s' % json.dumps(linfo.get('failed') or linfo.get('error')))
+        failed = linfo.get('failed') or [linfo.get('error')]
+        # only the leaves this property depends on decide it (leaves: list of leaf names, None = all)
+        mine = [f for f in failed if leaves is None or any(str(f).startswith(n + ':') for n in leaves) or 'crashed' in str(f)]
+        res['foreign_leaf_failures'] = [f for f in failed if f not in mine]
+        if mine:
+            res['ok'] = False
+            res['errors'].append('tie A (leafgen) could not translate: %s' % json.dumps(mine))
     # the extracted models follow the regenerated leaves too (no-op when nothing changed);
     # when a proof then fails, the checks fall back to the extracted SPEC as oracle
     ex = ' '.join(f.replace('.v', '.vo') for f in sorted(os.listdir(COQ)) if f.startswith('Extract') and f.endswith('.v'))
